@@ -731,6 +731,65 @@ fn c03_open_type_fields(rep: &mut Report) {
     }
 }
 
+/// Two shapes reported in the ninth round. (1) A tag on a *reference* to an open type (`U ::= ANY  T ::= [0] U`): like a tag on
+/// ANY itself it must be explicit (X.680 31.2.7 c speaks of the type, not of its spelling). (2) Tags inside the actual
+/// parameter of an instantiation are written in the instantiating module and take its default (keyword-less tag in an
+/// EXPLICIT TAGS module = explicit).
+fn c03_ninth_round(rep: &mut Report) {
+    use crate::comp;
+    use crate::proj::Kind;
+    for da in ["EXPLICIT TAGS", "IMPLICIT TAGS", "AUTOMATIC TAGS"] {
+        let src = format!("Mr DEFINITIONS {da} ::= BEGIN\nUr ::= ANY\nTr ::= [0] Ur\nSr ::= SEQUENCE {{ x [0] INTEGER, y [1] Ur }}\nPr {{ Xp }} ::= SEQUENCE {{ a [0] INTEGER, b [1] Xp }}\nIr ::= Pr {{ SEQUENCE {{ z [3] INTEGER, w [4] BOOLEAN }} }}\nEND\n");
+        let run = comp::rasn(&[src.clone()], &comp::Cfg::default_cfg());
+        rep.evaluations += 1;
+        let comp::Outcome::Ok { generated, warnings } = &run.out else {
+            rep.count("ninth_round_tag_cases[not Ok]", 1);
+            continue;
+        };
+        let Ok(mods) = crate::proj::project(generated) else { continue };
+        let d = da.split(' ').next().unwrap();
+        let field_tag = |item: &str, field: &str| -> Option<Option<crate::proj::Tag>> {
+            let it = mods.iter().find_map(|m| m.find(item))?;
+            match &it.kind {
+                Kind::Struct { fields, tuple: false } => fields.iter().find(|f| f.name == field).map(|f| f.attrs.tag()),
+                _ => None,
+            }
+        };
+        rep.nontrivial.insert(hash_str(&src));
+        // (1)
+        if !warnings.iter().any(|w| w.contains("Tr") || w.contains("Sr")) {
+            let mut judge = |name: &str, got: Option<crate::proj::Tag>| {
+                rep.count("tag_modes_compared", 1);
+                rep.count("ninth_round_tags_judged", 1);
+                if !matches!(&got, Some(t) if t.explicit) {
+                    rep.violations.push(Violation { sig: format!("c03|implicit-expected-explicit|reference-to-an-open-type|default={d}"), what: format!("{name}: a tag on a reference to `Ur ::= ANY` must be explicit ({da}), emitted {got:?}"), replay: serde_json::json!({"origin": format!("ninth-round({da})"), "sources": [src.clone()]}) });
+                }
+            };
+            if let Some(it) = mods.iter().find_map(|m| m.find("Tr")) {
+                judge("Tr", it.attrs.tag());
+            }
+            if let Some(t) = field_tag("Sr", "y") {
+                judge("Sr.y", t);
+            }
+        }
+        // (2): the hoisted actual parameter `IrB { z, w }`
+        if !warnings.iter().any(|w| w.contains("Ir")) {
+            if let Some(it) = mods.iter().find_map(|m| m.items.iter().find(|i| matches!(&i.kind, Kind::Struct { fields, tuple: false } if fields.iter().any(|f| f.name == "z")))) {
+                if let Kind::Struct { fields, .. } = &it.kind {
+                    for f in fields.iter().filter(|f| f.name == "z" || f.name == "w") {
+                        rep.count("tag_modes_compared", 1);
+                        rep.count("ninth_round_tags_judged", 1);
+                        let want = da == "EXPLICIT TAGS";
+                        if !matches!(f.attrs.tag(), Some(t) if t.explicit == want) {
+                            rep.violations.push(Violation { sig: format!("c03|tag-mode|tag-inside-an-actual-parameter|default={d}"), what: format!("{}.{}: a keyword-less tag inside the actual parameter of `Pr {{ .. }}` takes the default of the module it is written in ({da}: explicit={want}), emitted {:?}", it.name, f.name, f.attrs.tag()), replay: serde_json::json!({"origin": format!("ninth-round({da})"), "sources": [src.clone()]}) });
+                        }
+                    }
+                }
+            }
+        }
+    }
+}
+
 fn c03_copied_components(rep: &mut Report) {
     use crate::comp;
     // a tagged type assignment that only *becomes* a CHOICE while linking (instance of a parameterized CHOICE, selection of an
@@ -872,6 +931,7 @@ pub fn run_c03(ctx: &Ctx) -> Report {
     c03_copied_components(&mut rep);
     c03_keyword_prefixed_names(&mut rep);
     c03_open_type_fields(&mut rep);
+    c03_ninth_round(&mut rep);
     // DER level (O6): the generated bindings decode model-made DER bytes of sample values and encode them back
     if std::env::var("VERIF_NO_DER").is_err() {
         crate::c03der::run(ctx, &mut rep);
